@@ -337,6 +337,7 @@ impl ImplState {
                 _ => "bad-op".into(),
             },
             "eng.judge1" if t.len() == 2 => "ok".into(),
+            "eng.judgelegal" if t.len() == 2 => "ok".into(),
             // eng.keys <837 keys>: the keys the engine's current searcher actually uses (after ucinewgame), for the model
             "eng.keys" if t.len() == 838 => "ok".into(),
             "eng.isdraw" if t.len() == 2 => match parse_board(t[1]) {
